@@ -95,6 +95,40 @@ class _Path:
 
 
 _CUR: _Path | None = None
+_LEAKS: list[str] = []
+_MONITOR_ON = False
+
+
+def _install_leak_monitor() -> None:
+    """Record every TypeError CPython raises because a C-level operation was handed a SymStr —
+    even when the code under analysis catches it (``except (TypeError, ValueError)``), so that
+    a swallowed refusal can never be mistaken for the program's behaviour."""
+    global _MONITOR_ON
+    if _MONITOR_ON:
+        return
+    import sys
+
+    mon = getattr(sys, "monitoring", None)
+    if mon is None:  # pragma: no cover - Python < 3.12
+        raise Unsupported("sys.monitoring unavailable: swallowed C-level refusals could go unnoticed")
+    tool = None
+    for tid in (4, 3, 5):
+        try:
+            mon.use_tool_id(tid, "sx")
+            tool = tid
+            break
+        except ValueError:
+            continue
+    if tool is None:
+        raise Unsupported("no free sys.monitoring tool id")
+
+    def on_raise(code: Any, offset: int, exc: BaseException) -> None:
+        if isinstance(exc, TypeError) and "SymStr" in str(exc):
+            _LEAKS.append(str(exc))
+
+    mon.register_callback(tool, mon.events.RAISE, on_raise)
+    mon.set_events(tool, mon.events.RAISE)
+    _MONITOR_ON = True
 
 
 def _path() -> _Path:
@@ -724,6 +758,7 @@ class Explorer:
 
     def run(self, body: Callable[[], Any], *, max_cex: int = 1, label: str = "") -> None:
         global _CUR
+        _install_leak_monitor()
         self.pending.append([])
         while self.pending:
             if time.process_time() > self.deadline:
@@ -733,12 +768,20 @@ class Explorer:
             p = _Path(self, prefix)
             _CUR = p
             try:
+                del _LEAKS[:]
                 try:
                     ok, info = body()
                     good = branch(ok) if not isinstance(ok, bool) else ok
+                    if _LEAKS:
+                        raise Unsupported("a C-level operation refused a symbolic string (possibly swallowed): " + _LEAKS[0])
                 except Unsupported as u:
                     self.unsupported.append(f"{label}: {u}")
                     continue
+                except TypeError as te:
+                    if "SymStr" in str(te):
+                        self.unsupported.append(f"{label}: C-level operation refused a symbolic string: {te}")
+                        continue
+                    raise
                 finally:
                     self.paths += 1
                     self.checks += p.checks
